@@ -183,17 +183,25 @@ def contains_in_order(text, tokens):
     return True
 
 
-def check_render(s1, k1, s2, k2):
+def incompatible(s1, s2):
+    """faults on the same branch can mask each other: only compatible sites are combined"""
+    return ((s1 == 11 and s2 in (1, 2, 3, 4, 5, 6, 12, 15)) or (s2 == 11 and s1 in (1, 2, 3, 4, 5, 6, 12, 15))
+                or (s1 in (6, 15) and s2 in (6, 15)) or (s1 in (17, 18) and s2 in (17, 18))
+                or (s1 in (1, 2, 3, 12) and s2 in (1, 2, 3, 12) and (s1 == 12 or s2 == 12 or (s1 in (1, 2) and s2 in (1, 2)))) or (s1 in (7, 8) and s2 in (7, 8)) or (s1 in (9, 10) and s2 in (9, 10)))
+
+
+def check_render(s1, k1, s2, k2, s3=0):
     d = valid()
     reqs = []
     if s1 != 0:
         inject(d, s1, k1, reqs)
     if s2 != 0 and s2 != s1:
-        # (faults on the same branch can mask each other: only combine compatible sites)
-        if not ((s1 == 11 and s2 in (1, 2, 3, 4, 5, 6, 12, 15)) or (s2 == 11 and s1 in (1, 2, 3, 4, 5, 6, 12, 15))
-                or (s1 in (6, 15) and s2 in (6, 15)) or (s1 in (17, 18) and s2 in (17, 18))
-                or (s1 in (1, 2, 3, 12) and s2 in (1, 2, 3, 12) and (s1 == 12 or s2 == 12 or (s1 in (1, 2) and s2 in (1, 2)))) or (s1 in (7, 8) and s2 in (7, 8)) or (s1 in (9, 10) and s2 in (9, 10))):
+        if not incompatible(s1, s2):
             inject(d, s2, k2, reqs)
+    if s3 != 0 and s3 != s1 and s3 != s2:
+        # a third fault (thorough tier), only where it is compatible with both others
+        if not incompatible(s1, s3) and not incompatible(s2, s3) and not incompatible(s1, s2):
+            inject(d, s3, 0, reqs)
     if not reqs:
         try:
             CONV.convert(d)
@@ -248,3 +256,14 @@ def body_render_{lo}(s1: int, k1: int, s2: int, k2: int) -> int:
 '''
 for (_lo, _hi) in ((0, 1), (2, 3), (4, 5), (6, 8), (9, 10), (11, 12), (13, 15), (16, 16), (17, 17), (18, 18), (19, 20)):
     exec(_T.format(lo=_lo, hi=_hi, wit=(0, -1) if _lo == 0 else (-1,)))
+
+
+_T3 = '''
+@obligation(pre="{lo} <= s1 <= {hi} and s1 < s2 <= 20 and s2 < s3 <= 20 and 0 <= k1 <= 3 and (k1 == 0 or s1 in (1, 4, 5, 9, 14, 16, 17, 20))",
+            witnesses=(-1,), timeout=600, tiers=('thorough',))
+def body_render3_{lo}(s1: int, k1: int, s2: int, s3: int) -> int:
+    """three injected faults at once (first fault site {lo}..{hi}, sites increasing): rendering never raises, is stable, and names every failing path component, expectation, key and cause"""
+    return check_render(s1, k1, s2, 0, s3)
+'''
+for (_lo, _hi) in ((1, 2), (3, 4), (5, 6), (7, 9), (10, 12), (13, 18)):
+    exec(_T3.format(lo=_lo, hi=_hi))
